@@ -118,6 +118,7 @@ pub struct MutationStats {
     pub long_strings: usize,
     pub big_delay: bool,
     pub nested_data: bool,
+    pub planted: Vec<String>,
 }
 
 fn near_edge32(v: u32) -> bool {
@@ -127,7 +128,7 @@ fn near_edge32(v: u32) -> bool {
 /// Moves transition/content ids, document ids, source ids, delays, strings and data values of a
 /// parsed model to generated magnitudes.  References stay consistent; document order is kept.
 pub fn mutate_model(fsm: &mut Fsm, t: &mut Tape) -> MutationStats {
-    let mut st = MutationStats { width_boundary_hits: 0, long_strings: 0, big_delay: false, nested_data: false };
+    let mut st = MutationStats { width_boundary_hits: 0, long_strings: 0, big_delay: false, nested_data: false, planted: vec![] };
     // ---- id bijection x -> x*k + c (k odd), 0 stays 0, no collision between the two id spaces needed
     let k: u32 = (t.u32() | 1).max(1);
     let edge = *t.pick(&U32_EDGES);
@@ -271,7 +272,156 @@ pub fn mutate_model(fsm: &mut Fsm, t: &mut Tape) -> MutationStats {
             st.long_strings += 1;
         }
     }
+    // boundary-length strings in arbitrary string slots of the model (every persisted string kind)
+    if t.chance(60) {
+        let mut n_slots = 0usize;
+        for_each_string(fsm, &mut |_, _| n_slots += 1);
+        if n_slots > 0 {
+            let mut opt_slots: Vec<usize> = Vec::new();
+            {
+                let mut k = 0usize;
+                for_each_string(fsm, &mut |slot, _| {
+                    if slot.ends_with(".content") || slot.ends_with(".content_expr") {
+                        opt_slots.push(k);
+                    }
+                    k += 1;
+                });
+            }
+            let picks: Vec<(usize, usize)> = (0..1 + t.below(3))
+                .map(|_| {
+                    // optional strings (<content>) are a separate encoding path: picked half of the time if present
+                    let idx = if !opt_slots.is_empty() && t.bool() { opt_slots[t.below(opt_slots.len())] } else { t.below(n_slots) };
+                    (idx, *t.pick(&LEN_CLASSES))
+                })
+                .collect();
+            let texts: Vec<String> = picks.iter().map(|(_, l)| gen_string(t, *l)).collect();
+            let mut k = 0usize;
+            let mut planted = Vec::new();
+            for_each_string(fsm, &mut |slot, s| {
+                for (pi, (idx, _)) in picks.iter().enumerate() {
+                    // state names must stay unique and invoke ids non-empty keep their meaning: only lengthen those
+                    if *idx == k {
+                        if slot == "state.name" || slot == "invoke.id" {
+                            s.push_str(&texts[pi]);
+                        } else {
+                            *s = texts[pi].clone();
+                        }
+                        planted.push(slot.to_string());
+                    }
+                }
+                k += 1;
+            });
+            for (_, l) in &picks {
+                if *l >= 4096 {
+                    st.long_strings += 1;
+                }
+            }
+            st.planted = planted;
+        }
+    }
     st
+}
+
+/// Visits every persisted string of the model (incl. the sources of Data::Source values and
+/// the present Option<String>s), so that boundary lengths can be planted anywhere.
+pub fn for_each_string(fsm: &mut Fsm, f: &mut dyn FnMut(&str, &mut String)) {
+    fn data(d: &mut Data, slot: &str, f: &mut dyn FnMut(&str, &mut String)) {
+        match d {
+            Data::Source(s) => f(slot, &mut s.source),
+            Data::String(s) => f(slot, s),
+            _ => {}
+        }
+    }
+    fn common(c: &mut Option<CommonContent>, slot: &str, f: &mut dyn FnMut(&str, &mut String)) {
+        if let Some(c) = c {
+            if let Some(x) = c.content.as_mut() {
+                f(&format!("{}.content", slot), x);
+            }
+            if let Some(x) = c.content_expr.as_mut() {
+                f(&format!("{}.content_expr", slot), x);
+            }
+        }
+    }
+    fn params(p: &mut Option<Vec<Parameter>>, slot: &str, f: &mut dyn FnMut(&str, &mut String)) {
+        if let Some(v) = p {
+            for x in v.iter_mut() {
+                f(&format!("{}.param.name", slot), &mut x.name);
+                f(&format!("{}.param.expr", slot), &mut x.expr);
+                f(&format!("{}.param.location", slot), &mut x.location);
+            }
+        }
+    }
+    f("fsm.name", &mut fsm.name);
+    for s in fsm.states.iter_mut() {
+        f("state.name", &mut s.name);
+        let mut ni: List<Invoke> = List::new();
+        for inv in s.invoke.iterator() {
+            let mut i = inv.clone();
+            f("invoke.id", &mut i.invoke_id);
+            f("invoke.idlocation", &mut i.external_id_location);
+            data(&mut i.type_name, "invoke.type", f);
+            data(&mut i.type_expr, "invoke.typeexpr", f);
+            data(&mut i.src, "invoke.src", f);
+            data(&mut i.src_expr, "invoke.srcexpr", f);
+            for n in i.name_list.iter_mut() {
+                f("invoke.namelist", n);
+            }
+            common(&mut i.content, "invoke", f);
+            params(&mut i.params, "invoke", f);
+            ni.push(i);
+        }
+        s.invoke = ni;
+        if let Some(dd) = s.donedata.as_mut() {
+            common(&mut dd.content, "donedata", f);
+            params(&mut dd.params, "donedata", f);
+        }
+    }
+    for t in fsm.transitions.values_mut() {
+        for e in t.events.iter_mut() {
+            f("transition.event", e);
+        }
+        data(&mut t.cond, "transition.cond", f);
+    }
+    for v in fsm.executableContent.values_mut() {
+        for ec in v.iter_mut() {
+            let any = ec.as_mut().as_any_mut();
+            if let Some(x) = any.downcast_mut::<If>() {
+                data(&mut x.condition, "if.cond", f);
+            } else if let Some(x) = any.downcast_mut::<ForEach>() {
+                data(&mut x.array, "foreach.array", f);
+                f("foreach.item", &mut x.item);
+                f("foreach.index", &mut x.index);
+            } else if let Some(x) = any.downcast_mut::<Assign>() {
+                data(&mut x.location, "assign.location", f);
+                data(&mut x.expr, "assign.expr", f);
+            } else if let Some(x) = any.downcast_mut::<Raise>() {
+                f("raise.event", &mut x.event);
+            } else if let Some(x) = any.downcast_mut::<Log>() {
+                f("log.label", &mut x.label);
+                data(&mut x.expression, "log.expr", f);
+            } else if let Some(x) = any.downcast_mut::<Expression>() {
+                data(&mut x.content, "script", f);
+            } else if let Some(x) = any.downcast_mut::<Cancel>() {
+                f("cancel.sendid", &mut x.send_id);
+                data(&mut x.send_id_expr, "cancel.sendidexpr", f);
+            } else if let Some(x) = any.downcast_mut::<SendParameters>() {
+                f("send.id", &mut x.name);
+                f("send.idlocation", &mut x.name_location);
+                data(&mut x.event, "send.event", f);
+                data(&mut x.event_expr, "send.eventexpr", f);
+                data(&mut x.target, "send.target", f);
+                data(&mut x.target_expr, "send.targetexpr", f);
+                data(&mut x.type_value, "send.type", f);
+                data(&mut x.type_expr, "send.typeexpr", f);
+                data(&mut x.delay_expr, "send.delayexpr", f);
+                for n in x.name_list.iter_mut() {
+                    f("send.namelist", n);
+                }
+                common(&mut x.content, "send", f);
+                params(&mut x.params, "send", f);
+            }
+        }
+    }
 }
 
 /// A sink that accepts at most `chunk` bytes per write call and fails (optionally) at call `fail_at`.
